@@ -214,8 +214,15 @@ func (w *CronWorker) syncOne(now time.Time, key string, ts time.Time, counts map
 
 	// Check that it does not exceed maximum backschedule limit.
 	if counts[key] >= maxCount {
-		// Bump to next schedule time.
-		newNext, err := w.schedule.Bump(jobConfig, now)
+		// Bump to next schedule time. The clock may have moved past the next
+		// schedule time since this iteration started, so never bump from earlier
+		// than the schedule time that was just popped, otherwise the same schedule
+		// time would be popped and skipped again indefinitely.
+		fromTime := now
+		if ts.After(fromTime) {
+			fromTime = ts
+		}
+		newNext, err := w.schedule.Bump(jobConfig, fromTime)
 		if err != nil {
 			return errors.Wrapf(err, "cannot bump to new next schedule time")
 		}
